@@ -5,6 +5,8 @@
     error or panic).  This file contains only statements (closed by [exact] or
     a short application of lemmas), their pins and their assumptions. *)
 From RepeV Require Import Model.OffReader Proofs.OffReaderProofs.
+From RepeV Require Import Model.OutQueue Proofs.OutQueueProofs.
+From Coq Require Import Permutation.
 From RepeV Require Import Gen.Tables Proofs.TablesC01 Proofs.TablesMisc.
 
 (** the number of held permits never exceeds the cap: in every state reachable
@@ -134,6 +136,49 @@ Qed.
     accepts the model on every well-formed case *)
 Theorem C16_holds : forall c, c16_wf c = true -> ok_C16 c (model_C16 c) = true.
 Proof. exact ok_model_C16. Qed.
+
+(** ** the bounded outbound channel between the reader / the blocking threads and the writer
+    (Model/OutQueue.v): what the refusals and replies of the theorems above go through *)
+
+(** whatever the producers and the schedule of waiting sends and writer steps, nothing is
+    lost or duplicated, and the queue never exceeds its capacity *)
+Theorem C16_bounded_queue_conserves : forall (acts : list qact) (s : qst resp),
+  forallb waiting_act acts = true -> (length (q_items s) <= q_cap s)%nat ->
+  Permutation (all_of (qrun s acts)) (all_of s) /\
+  (length (q_items (qrun s acts)) <= q_cap s)%nat.
+Proof.
+  intros acts s Hw Hb. split; [exact (run_conserves acts s Hw)|exact (proj1 (run_bounded acts s Hb))].
+Qed.
+
+(** reader and writer cannot block each other: with a capacity of at least one, as long as
+    anything is queued or unsent some waiting action is enabled *)
+Theorem C16_bounded_queue_no_deadlock : forall (s : qst resp),
+  (0 < q_cap s)%nat -> quiescent s = false ->
+  exists a, waiting_act a = true /\ enabled s a = true.
+Proof. exact no_deadlock. Qed.
+
+(** a schedule of enabled actions is no longer than the work left, and a maximal one ends
+    with every message on the wire exactly once (any number of producers) *)
+Theorem C16_bounded_queue_delivers_all : forall (acts : list qact) (s : qst resp),
+  (0 < q_cap s)%nat -> forallb waiting_act acts = true -> all_enabled s acts = true ->
+  (length acts <= measure s)%nat /\
+  ((forall a, waiting_act a = true -> enabled (qrun s acts) a = false) ->
+   quiescent (qrun s acts) = true /\ Permutation (q_wire (qrun s acts)) (all_of s)).
+Proof. exact delivery. Qed.
+
+(** the reader's own messages (refusals at the cap, inline replies) reach the wire in the
+    order of the requests, whatever the capacity and the schedule *)
+Theorem C16_reader_replies_delivered_in_order : forall (q : nat) (msgs : list resp) acts,
+  (0 < q)%nat -> forallb waiting_act acts = true ->
+  all_enabled (mkQ q [msgs] [] []) acts = true ->
+  (forall a, waiting_act a = true -> enabled (qrun (mkQ q [msgs] [] []) acts) a = false) ->
+  q_wire (qrun (mkQ q [msgs] [] []) acts) = msgs.
+Proof. exact single_producer_delivery. Qed.
+
+(** and it has to be the waiting send: with [try_send] a full queue loses a message *)
+Theorem C16_try_send_would_lose : exists (s : qst N) acts,
+  (0 < q_cap s)%nat /\ quiescent (qrun s acts) = true /\ ~ Permutation (q_wire (qrun s acts)) (all_of s).
+Proof. exact try_send_loses. Qed.
 
 (** ** non-vacuity *)
 
@@ -271,6 +316,25 @@ Check C16_reader_never_waits : forall nmw s r,
    step nmw s (Arrive r)
    = mkSt (running s) (cap s) (outbox s ++ (if r_notify r then [] else [(r_id r, EC_OK)]))).
 Check C16_holds : forall c, c16_wf c = true -> ok_C16 c (model_C16 c) = true.
+Check C16_bounded_queue_conserves : forall (acts : list qact) (s : qst resp),
+  forallb waiting_act acts = true -> (length (q_items s) <= q_cap s)%nat ->
+  Permutation (all_of (qrun s acts)) (all_of s) /\
+  (length (q_items (qrun s acts)) <= q_cap s)%nat.
+Check C16_bounded_queue_no_deadlock : forall (s : qst resp),
+  (0 < q_cap s)%nat -> quiescent s = false ->
+  exists a, waiting_act a = true /\ enabled s a = true.
+Check C16_bounded_queue_delivers_all : forall (acts : list qact) (s : qst resp),
+  (0 < q_cap s)%nat -> forallb waiting_act acts = true -> all_enabled s acts = true ->
+  (length acts <= measure s)%nat /\
+  ((forall a, waiting_act a = true -> enabled (qrun s acts) a = false) ->
+   quiescent (qrun s acts) = true /\ Permutation (q_wire (qrun s acts)) (all_of s)).
+Check C16_reader_replies_delivered_in_order : forall (q : nat) (msgs : list resp) acts,
+  (0 < q)%nat -> forallb waiting_act acts = true ->
+  all_enabled (mkQ q [msgs] [] []) acts = true ->
+  (forall a, waiting_act a = true -> enabled (qrun (mkQ q [msgs] [] []) acts) a = false) ->
+  q_wire (qrun (mkQ q [msgs] [] []) acts) = msgs.
+Check C16_try_send_would_lose : exists (s : qst N) acts,
+  (0 < q_cap s)%nat /\ quiescent (qrun s acts) = true /\ ~ Permutation (q_wire (qrun s acts)) (all_of s).
 
 (** the codes are the crate's: ResourceExhausted = 8, InternalError = 9 *)
 Check (eq_refl : (EC_OK, EC_RESOURCE_EXHAUSTED, EC_INTERNAL_ERROR) = (0, 8, 9)).
@@ -288,6 +352,11 @@ Print Assumptions C16_others_unaffected_by_panic.
 Print Assumptions C16_execution_preserved_through_middleware.
 Print Assumptions C16_reader_never_waits.
 Print Assumptions C16_holds.
+Print Assumptions C16_bounded_queue_conserves.
+Print Assumptions C16_bounded_queue_no_deadlock.
+Print Assumptions C16_bounded_queue_delivers_all.
+Print Assumptions C16_reader_replies_delivered_in_order.
+Print Assumptions C16_try_send_would_lose.
 
 (** constants of the model are the ones re-read from the Rust source on this run *)
 Theorem C16_source_tables :
